@@ -142,6 +142,12 @@ def do_op(f, o):
     if k == "write":
         f.write(b"x")
         return ["none"]
+    if k == "q":
+        v = f.closed if o[1] == "closed" else getattr(f, o[1])()
+        return ["t", v] if isinstance(v, bool) else ["x", "%s gave %r" % (o[1], v)]
+    if k == "flush":
+        r = f.flush()
+        return ["none"] if r is None else ["x", "flush returned %r" % (r,)]
     raise KeyError(k)
 
 
@@ -233,6 +239,8 @@ def run_write(case):
                 elif o[0] == "close":
                     f.close()
                     r = ["none"]
+                elif o[0] in ("q", "flush"):
+                    r = do_op(f, o)
                 else:
                     raise KeyError(o[0])
             except Exception as e:  # noqa
